@@ -26,7 +26,7 @@ type mnode struct {
 	braces3c bool
 }
 
-var mNames = []string{"a", "B", "name", "x_1", "日本", "if", "unless", "é", "a-b", "N9", "Name"}
+var mNames = []string{"a", "B", "name", "x_1", "日本", "if", "unless", "é", "a-b", "N9", "Name", "istanbul", "maſs", "ıd", "mass"}
 var mTexts = []string{"hello", " ", "x{y", "a}b", "{ x", "\n", "'q'", "\"", "日本 text", "{.", "#", "/", "x}", "a }", "😀", "\t-"}
 
 func genMNodes(rnd *rand.Rand, d int) []*mnode {
@@ -234,6 +234,12 @@ func mInput(text string, vars [][2]string, expect sx.SX) sx.SX {
 
 func genVars(rnd *rand.Rand) [][2]string {
 	var vars [][2]string
+	// keys whose lower case equals a template name although simple case folding says otherwise, and the converse
+	for _, kv := range [][2]string{{"İSTANBUL", "city"}, {"MASS", "kg"}, {"ID", "7"}, {"Maſs", "long-s"}, {"\u212a", "kelvin"}} {
+		if rnd.Intn(3) == 0 {
+			vars = append(vars, kv)
+		}
+	}
 	for _, n := range []string{"a", "b", "name", "x_1", "日本", "if", "unless", "é", "a-b", "n9"} {
 		switch rnd.Intn(3) {
 		case 0:
@@ -353,6 +359,8 @@ func sameBraces(ns []*mnode) bool {
 
 var mErrCodes = map[string]int64{"UNEXPECTED_SYMBOL": 1, "MISTMATCHED_BRACKETS": 2, "INTERNAL": 3, "UNEXPECTED_END": 4, "UNEXPECTED_SECTION_END": 5, "NOT_CLOSED_SECTION": 6, "ERROR_NEAR": 7}
 
+var c10Warm = mustache.NewMustacheTemplate()
+
 func runC10(in sx.SX) (sx.SX, string) {
 	l := sx.AsList(in)
 	text := sx.AsString(l[0])
@@ -365,6 +373,28 @@ func runC10(in sx.SX) (sx.SX, string) {
 	t.SetAutoVariables(false)
 	t.SetTemplate("warm {{up}}") // the template object is reused: nothing of an earlier template may survive
 	fail := ""
+	{
+		// one template object that lives through the whole run is given every text twice
+		outcome := func(tp *mustache.MustacheTemplate) string {
+			if err := tp.SetTemplate(text); err != nil {
+				return "rejected (" + codeOf(err) + ")"
+			}
+			r, err := tp.EvaluateWithVariables(vars)
+			if err != nil {
+				return "evaluation error (" + codeOf(err) + ")"
+			}
+			return "rendered " + sx.Quote(r)
+		}
+		ft := mustache.NewMustacheTemplate()
+		ft.SetAutoVariables(false)
+		fresh := outcome(ft)
+		c10Warm.SetAutoVariables(false)
+		if first := outcome(c10Warm); first != fresh {
+			fail = "a template object used before: " + first + "; a new one: " + fresh
+		} else if second := outcome(c10Warm); second != fresh {
+			fail = "the same text set twice on one template object: second time " + second + "; a new one: " + fresh
+		}
+	}
 	var obs sx.SX
 	expect := sx.AsList(l[4])
 	mustReject := len(expect) == 1
